@@ -88,8 +88,19 @@ def check(ctx, report):
     report.rule('C12.R4', 'index arguments that may be slices never reach get_item_size as one item')
     report.rule('C12.R5', 'prefix derived from the composed body; max_byte_num fits item_num_size')
     classes = [ab] + model.all_subclasses(ab)
+    # R9 first: ArrayBase, and every subclass that overrides part of the sequence interface or of the bookkeeping, evaluated as a
+    # transition system.  Where that succeeds it decides R1, R2, R4 and R6 for the class (they remain the reading of the source
+    # for code that leaves the evaluable subset)
+    tabulated = {}
+    for c in classes:
+        if c is ab or any(n in c.methods for n in SEQ_METHODS | {'_update_items_size', '__iadd__', 'pop', 'remove', 'clear', 'reverse', 'extend'}):
+            tabulated[c] = edit_tabulation(ctx, report, c)
+    if tabulated.get(ab):
+        report.floor('C12.R9', 3000, 'edits evaluated')
     # R1 / R4
     for c in classes:
+        if tabulated.get(c) or (tabulated.get(ab) and not any(n in c.methods for n in SEQ_METHODS | {'_update_items_size'})):
+            continue
         for name, f in c.methods.items():
             if name in ('__attrs_post_init__', '__init__'):
                 continue
@@ -159,7 +170,7 @@ def check(ctx, report):
                         report.add('C12.R4', f.construct + '@slice', 'index may be a slice: self._items[index] is then a list handed to get_item_size as one item, _items_size drifts')
     # R6: composite MutableSequence mixins (several primitive edits per call) are replaced by atomic versions
     report.rule('C12.R6', 'bulk edits (extend / += / clear / reverse) are atomic: one bound check, one mutation')
-    for name in ('extend', 'clear', 'reverse'):
+    for name in ('extend', 'clear', 'reverse') if not tabulated.get(ab) else ():
         report.count('C12.R6')
         f = ab.methods.get(name)
         if f is None:
@@ -172,7 +183,7 @@ def check(ctx, report):
         if n_mut != 1 or loops:
             report.add('C12.R6', f.construct + '@atomic', 'bulk edit performs %d mutations%s: it must check once and mutate once' % (n_mut, ' inside a loop' if loops else ''))
     report.count('C12.R6')
-    ia = ab.methods.get('__iadd__')
+    ia = ab.methods.get('__iadd__') if not tabulated.get(ab) else None
     if ia is not None and not any(isinstance(n, ast.Call) and isinstance(n.func, ast.Attribute) and n.func.attr == 'extend' for n in ast.walk(ia.node)):
         report.add('C12.R6', ia.construct + '@atomic', '__iadd__ does not go through the atomic extend')
     item_size_agreement(ctx, report, ab)
@@ -184,6 +195,9 @@ def check(ctx, report):
         return
     report.touch(u)
     report.count('C12.R2')
+    if tabulated.get(ab):
+        r2_done(ctx, report, model, ab, classes, it)
+        return
     writes = [n for n in ast.walk(u.node) if isinstance(n, (ast.AugAssign, ast.Assign)) and
               any(self_items(t, ('_items_size',)) for t in ([n.target] if isinstance(n, ast.AugAssign) else n.targets))]
     raises = [n for n in ast.walk(u.node) if isinstance(n, ast.Raise)]
@@ -216,6 +230,10 @@ def check(ctx, report):
         ok = ('size_diff', 'Sub', 'self.param.get_item_size(del_item)') in signs and ('size_diff', 'Add', 'self.param.get_item_size(insert_item)') in signs
         if not ok:
             report.add('C12.R2', u.construct + '@diff', 'size difference must be -size(del_item) +size(insert_item)')
+    r2_done(ctx, report, model, ab, classes, it)
+
+
+def r2_done(ctx, report, model, ab, classes, it):
     # R3 ownership over the whole package
     owners = {ab}
     for f in model.functions():
@@ -255,7 +273,8 @@ def check(ctx, report):
                 if isinstance(mx, int) and isinstance(mn, int) and mn > mx:
                     report.add('C12.R5', c.construct + '@get_param', 'min_byte_num %d exceeds max_byte_num %d' % (mn, mx))
                 report.sample({'rule': 'C12.R5', 'class': c.name, 'min': mn, 'max': mx, 'prefix_width': w}, 6)
-    report.floor('C12.R1', 3, 'mutation sites')
+    if not report.instances.get('C12.R9'):
+        report.floor('C12.R1', 3, 'mutation sites')      # R1 is the reading of the source for code R9 could not evaluate
     report.floor('C12.R5', 45, 'container obligations')
 
 
@@ -428,3 +447,198 @@ def protocol_bounds(ctx, report):
                 continue
             vector_bounds(ctx, report, 'C12.R8', c, entry)
     report.floor('C12.R8', 20, 'specified vectors')
+
+
+# ---- R9: the sequence interface evaluated as a transition system -------------------------------------------------------------
+
+def edit_tabulation(ctx, report, ab=None):
+    """Every editing method of ArrayBase (and the MutableSequence mixin methods built on them) is evaluated (sa.miniexec,
+    helper methods through the MRO) on every vector state over a small item alphabet whose items have different sizes
+    (a falsy item included), for every index, slice and value of that alphabet, under bounds that the edits can leave on
+    both sides.  Precondition of each step is the invariant itself (``_items_size`` == sum of item sizes, within bounds);
+    the step must end in a state that a plain list gives for the same edit with the invariant restored, or - when the
+    result would leave the bounds - raise the data-length error and leave items and size untouched; list errors
+    (IndexError, ValueError) must come out as they do for a list, state untouched.  The invariant is therefore inductive over
+    any sequence of edits.  Returns True when every method stayed inside the evaluable subset."""
+    import itertools
+    from ..miniexec import Evaluator, Native, Obj, Raised, Unsupported, class_call_hook
+    model = ctx.model
+    ab = ab or model.cls('ArrayBase')
+    report.rule('C12.R9', 'every edit of the sequence interface, from every small state: result of the plain list edit with exact size bookkeeping, or refused with nothing changed')
+    MN, MX = 2, 5
+    ALPHABET = (0, 1, 2)
+
+    def sz(item):
+        return item + 1
+
+    class Param(Native):
+        min_byte_num, max_byte_num, item_size = MN, MX, 1
+
+        def get_item_size(self, item):
+            if not isinstance(item, int) or isinstance(item, bool):
+                raise Unsupported('item of another kind')
+            return sz(item)
+
+    class Vec(Native):
+        def __init__(self, items):
+            self._items = list(items)
+            self._items_size = sum(sz(x) for x in items)
+            self.param = Param()
+
+        def __len__(self):
+            return len(self._items)
+    hook = class_call_hook(ab, None, model)
+
+    def free(name):
+        if name == 'slice':
+            return slice
+        raise Unsupported('free name ' + name)
+    nh = hook.name_hook_for(ab.module, free)
+
+    def call(v, method, **kw):
+        f = ab.resolve(method)
+        if f is None or f.module.external:
+            raise Unsupported('method %s is not defined by the repository' % method)
+        report.touch(f)
+        params = [a.arg for a in f.node.args.args][1:]
+        env = {'self': v}
+        for p_, (k, val) in zip(params, kw.items()):
+            env[p_] = val
+        return Evaluator(env, hook, nh).function(f.node)
+    states = [list(t) for n in range(0, 5) for t in itertools.product(ALPHABET, repeat=n) if MN <= sum(sz(x) for x in t) <= MX]
+    idx = (-4, -1, 0, 1, 2, 3, 5)
+    slices = [slice(None), slice(0, 1), slice(1, None), slice(0, 0), slice(1, 3), slice(None, None, 2), slice(None, None, -1), slice(3, 9), slice(-2, None)]
+    class OneShot(Native):
+        # an iterator: can be walked once (a generator handed to extend / += / slice assignment)
+        def __init__(self, items):
+            self.items, self.shown = list(items), list(items)
+
+        def __iter__(self):
+            return self
+
+        def __next__(self):
+            if not self.items:
+                raise StopIteration
+            return self.items.pop(0)
+
+        def __repr__(self):
+            return 'iter(%s)' % self.shown
+    values = [[], [0], [2], [1, 0], [2, 2, 2], ('once', [1, 0]), ('once', [2])]
+
+    def fresh(val):
+        return OneShot(val[1]) if isinstance(val, tuple) and val and val[0] == 'once' else val
+
+    def plain(val):
+        return list(val[1]) if isinstance(val, tuple) and val and val[0] == 'once' else val
+
+    def ref(items, op, a, b):
+        L = list(items)
+        if op == 'setitem':
+            L[a] = b
+        elif op == 'setslice':
+            L[a] = list(b)
+        elif op in ('delitem', 'delslice'):
+            del L[a]
+        elif op == 'insert':
+            L.insert(a, b)
+        elif op == 'append':
+            L.append(a)
+        elif op in ('extend', 'iadd'):
+            L.extend(a)
+        elif op == 'clear':
+            del L[:]
+        elif op == 'reverse':
+            L.reverse()
+        elif op == 'pop':
+            L.pop(a)
+        elif op == 'remove':
+            L.remove(a)
+        return L
+
+    def run(v, op, a, b):
+        if op in ('setitem', 'setslice'):
+            call(v, '__setitem__', index=a, value=b)
+        elif op in ('delitem', 'delslice'):
+            call(v, '__delitem__', index=a)
+        elif op == 'insert':
+            call(v, 'insert', index=a, value=b)
+        elif op == 'append':
+            call(v, 'append', value=a)
+        elif op == 'extend':
+            call(v, 'extend', values=a)
+        elif op == 'iadd':
+            g = ab.resolve('__iadd__')
+            if g is not None and not g.module.external:
+                call(v, '__iadd__', values=a)
+            else:
+                call(v, 'extend', values=a)         # MutableSequence.__iadd__: self.extend(values); return self
+        elif op == 'clear':
+            call(v, 'clear')
+        elif op == 'reverse':
+            call(v, 'reverse')
+        elif op == 'pop':
+            g = ab.resolve('pop')
+            if g is not None and not g.module.external:
+                call(v, 'pop', index=a)
+            else:
+                call(v, '__getitem__', index=a)     # MutableSequence.pop: v = self[index]; del self[index]
+                call(v, '__delitem__', index=a)
+        elif op == 'remove':
+            g = ab.resolve('remove')
+            if g is not None and not g.module.external:
+                call(v, 'remove', value=a)
+            else:
+                call(v, '__delitem__', index=v._items.index(a))     # MutableSequence.remove: del self[self.index(value)]
+    cases = []
+    for a in idx:
+        cases += [('setitem', a, x) for x in ALPHABET] + [('delitem', a, None), ('pop', a, None)] + [('insert', a, x) for x in ALPHABET]
+    for sl in slices:
+        cases += [('setslice', sl, val) for val in values] + [('delslice', sl, None)]
+    cases += [('append', x, None) for x in ALPHABET] + [('remove', x, None) for x in ALPHABET]
+    cases += [('extend', val, None) for val in values] + [('iadd', val, None) for val in values] + [('clear', None, None), ('reverse', None, None)]
+    LIST_ERRORS = ('IndexError', 'ValueError', 'TypeError')
+    try:
+        for items in states:
+            for op, a, b in cases:
+                report.count('C12.R9')
+                want_exc, want_items = None, None
+                try:
+                    want_items = ref(items, op, plain(a), plain(b))
+                except (IndexError, ValueError, TypeError) as e:
+                    want_exc = type(e).__name__
+                if want_exc is None:
+                    size = sum(sz(x) for x in want_items)
+                    if size < MN:
+                        want_exc, want_items = 'NotEnoughData', None
+                    elif size > MX:
+                        want_exc, want_items = 'TooMuchData', None
+                v = Vec(items)
+                got_exc = None
+                try:
+                    run(v, op, fresh(a), fresh(b))
+                except Raised as e:
+                    got_exc = e.what.split('(')[0].split('.')[-1]
+                except (IndexError, ValueError, TypeError) as e:
+                    got_exc = type(e).__name__
+                where = '%s(%s%s) on %s' % (op, a, '' if b is None else ', %s' % (b,), items)
+                key = '%s@edit[%s]' % (ab.name, op)
+                if want_exc is not None:
+                    if got_exc != want_exc and not (want_exc in LIST_ERRORS and got_exc in LIST_ERRORS):
+                        report.add('C12.R9', '%s:%s' % (ab.module.relpath, key), '%s: expected %s, the edit %s' % (where, want_exc, 'is accepted (items %s, size %s)' % (v._items, v._items_size) if got_exc is None else 'raises ' + got_exc))
+                        return True
+                    if v._items != items or v._items_size != sum(sz(x) for x in items):
+                        report.add('C12.R9', '%s:%s' % (ab.module.relpath, key), '%s is refused with %s but leaves items %s / size %s behind (were %s / %s): a refused edit must change nothing' % (
+                            where, got_exc, v._items, v._items_size, items, sum(sz(x) for x in items)))
+                        return True
+                else:
+                    if got_exc is not None:
+                        report.add('C12.R9', '%s:%s' % (ab.module.relpath, key), '%s: a plain list gives %s (size %d, within %d..%d), the vector raises %s' % (where, want_items, size, MN, MX, got_exc))
+                        return True
+                    if v._items != want_items or v._items_size != size:
+                        report.add('C12.R9', '%s:%s' % (ab.module.relpath, key), '%s: a plain list gives %s (size %d); the vector holds %s and books size %s' % (where, want_items, size, v._items, v._items_size))
+                        return True
+    except Unsupported as e:
+        report.sample({'rule': 'C12.R9', 'tabulation': 'not applicable (%s): the typestate rules R1-R6 decide alone' % str(e)[:100]})
+        return False
+    report.sample({'rule': 'C12.R9', 'states': len(states), 'edits_per_state': len(cases), 'alphabet': 'items 0, 1, 2 of sizes 1, 2, 3; bounds %d..%d' % (MN, MX)})
+    return True
